@@ -5,6 +5,7 @@ From Coq Require Import String.
 From Coq Require Import List Ascii ZArith Bool.
 From CGV Require Import Base.PyBase Base.PyVal Gen.DialectGen Dialect.DialectImpl Dialect.DialectDefs
      Dialect.DialectCheck Dialect.FaultModels.
+From CGV Require Reader.ReaderImpl.
 Import ListNotations.
 
 (** [impl]: the exception raised by MoleculeResolver.from_string(s).resolve_all() on the faulty
@@ -15,8 +16,9 @@ Inductive fcase :=
     text: what stands after '#' (lk 0, 2) resp. after the first ';' (lk 1) in the faulty token *)
 | FAnnot (lk kind : nat) (tbl : table) (text : pystr) (impl : option err)
 (** kind: 1 unclosed ring index, 2 ring bond duplicating an edge; events of the faulty graph text,
-    marker m is the injected one *)
-| FRing (kind : nat) (evs : list ev) (m : Z) (impl : option err)
+    marker m is the injected one; [text] is what read_cgsmiles is called on (the base graph in braces, or
+    the cleaned text of a coarse fragment), judged by the reader component's model ReaderImpl.read_cgsmiles *)
+| FRing (kind : nat) (evs : list ev) (m : Z) (tbl : table) (text : pystr) (impl : option err)
 (** coarse graph at the level at which the fragment is missing: nodes with fragname, edges with
     order, names of the defined fragments, the node that was renamed *)
 | FFrag (nodes : list (Z * pystr)) (edges : list (Z * Z * Z)) (dict : list pystr) (bad : Z) (impl : option err).
@@ -38,7 +40,8 @@ Definition annot_model (lk : nat) (fo : float_oracle) (text : pystr) : res attrs
 Definition corr_ok (c : fcase) : bool :=
   match c with
   | FAnnot lk _ tbl text impl => agree (annot_model lk (fo_of_table tbl) text) impl
-  | FRing _ evs _ impl => agree (ring_model evs) impl
+  | FRing _ evs _ tbl text impl =>
+      agree (ring_model evs) impl && agree (Reader.ReaderImpl.read_cgsmiles (fo_of_table tbl) text) impl
   | FFrag nodes edges dict _ impl => agree (resolve_step dict edges nodes (Ok tt)) impl
   end.
 
@@ -109,7 +112,7 @@ Definition prop_fail (c : fcase) : nat :=
            | 1%nat => if coarse_fragment_charge_class lk kind fo text then 101%nat else 1%nat
            | n => n
            end
-  | FRing kind evs m impl =>
+  | FRing kind evs m _ _ impl =>
       if negb (match kind with
                | 1%nat => Nat.eqb (ring_count m evs) 1
                | _ => dup_present evs m end) then 90%nat
